@@ -304,3 +304,144 @@ func c13TextExact(c *Ctx) {
 }
 
 var _ = token.NoPos
+
+// checkWrapNonNil: a failure is never reported on behalf of a call that succeeded. Every error-typed variable handed to
+// fmt.Errorf (wrapped with %w or printed) must be entailed non-nil where the message is built; wrapping a nil error
+// produces a non-nil error out of a success — the inverted test `if err == nil { return fmt.Errorf("…: %w", err) }`.
+func checkWrapNonNil(c *Ctx, rule string, pkgs ...string) {
+	w := c.W
+	n := 0
+	for _, pn := range pkgs {
+		p := w.Pkg(pn)
+		if p == nil {
+			c.undecided(rule, "package "+pn+" not loaded")
+			continue
+		}
+		info := p.TypesInfo
+		for _, f := range w.FuncsIn(p) {
+			if f.Body == nil {
+				continue
+			}
+			e := w.ent(f)
+			k := 0
+			walkNoLit(f.Body, func(q ast.Node) bool {
+				call, ok := q.(*ast.CallExpr)
+				if !ok {
+					return true
+				}
+				callee := calleeOf(info, call)
+				if callee == nil || funcFullName(callee) != "fmt.Errorf" {
+					return true
+				}
+				for _, a := range call.Args[1:] {
+					id := identOf(a)
+					if id == nil {
+						continue
+					}
+					v, ok := info.Uses[id].(*types.Var)
+					if !ok || v.IsField() || typeStr(v.Type()) != "error" {
+						continue
+					}
+					n++
+					k++
+					c.fn(f)
+					at := site{pos: call.Pos(), anc: call}
+					ok2, how := e.Prove(call, e.nn(keyCtx{e: e, s: &at}, id))
+					key := f.Name + "/wraps " + id.Name + "#" + itoa(k)
+					if ok2 {
+						c.obN(rule, key, w.Pos(call.Pos()), true, "entailed non-nil: "+how, false)
+					} else {
+						c.ob(rule, key, w.Pos(call.Pos()), false, "an error is built from "+id.Name+", which is not entailed non-nil here: a call that succeeded would be reported as a failure ("+how+")")
+					}
+				}
+				return true
+			})
+		}
+	}
+	if n == 0 {
+		c.undecided(rule, "no wrapped error found")
+	}
+}
+
+// checkFoundFlag: what a lookup hands back is used only where the lookup is known to have found it. For every
+// `v, ok := f(…)` on a module function returning (T, bool), a map index or a type assertion, every later use of v must be
+// entailed by ok: the zero value standing in for "not found" is never taken for a result. (The inverted test
+// `if ok { return "", nil }; return v.toString()` passes every safety rule and always answers with the zero value.)
+func checkFoundFlag(c *Ctx, rule string, pkgs ...string) {
+	w := c.W
+	n := 0
+	for _, pn := range pkgs {
+		p := w.Pkg(pn)
+		if p == nil {
+			c.undecided(rule, "package "+pn+" not loaded")
+			continue
+		}
+		info := p.TypesInfo
+		for _, f := range w.FuncsIn(p) {
+			if f.Body == nil {
+				continue
+			}
+			e := w.ent(f)
+			k := 0
+			walkNoLit(f.Body, func(q ast.Node) bool {
+				as, ok := q.(*ast.AssignStmt)
+				if !ok || len(as.Lhs) != 2 || len(as.Rhs) != 1 {
+					return true
+				}
+				vid, okid := identOf(as.Lhs[0]), identOf(as.Lhs[1])
+				if vid == nil || okid == nil || vid.Name == "_" || okid.Name == "_" {
+					return true
+				}
+				call, isCall := unparen(as.Rhs[0]).(*ast.CallExpr)
+				if !isCall {
+					return true // map index and type assertion: the zero value is part of their contract
+				}
+				callee := calleeOf(info, call)
+				if callee == nil || w.byObj[callee.Origin()] == nil {
+					return true
+				}
+				sig := callee.Type().(*types.Signature)
+				if sig.Results().Len() != 2 || typeStr(sig.Results().At(1).Type()) != "bool" {
+					return true
+				}
+				vobj := info.Defs[vid]
+				if vobj == nil {
+					vobj = info.Uses[vid]
+				}
+				okobj := info.Defs[okid]
+				if okobj == nil {
+					okobj = info.Uses[okid]
+				}
+				if vobj == nil || okobj == nil || len(e.assigns[vobj]) != 1 || len(e.assigns[okobj]) < 1 {
+					return true
+				}
+				// uses of v after the assignment, inside this function (not in nested literals)
+				walkNoLit(f.Body, func(u ast.Node) bool {
+					id, ok := u.(*ast.Ident)
+					if !ok || info.Uses[id] != vobj || id.Pos() < as.End() {
+						return true
+					}
+					n++
+					k++
+					c.fn(f)
+					at := site{pos: id.Pos(), anc: id}
+					// the flag as it was at the lookup
+					kc := keyCtx{e: e, s: &site{pos: as.End(), anc: as}}
+					_ = at
+					ok2, how := e.Prove(id, e.cond(kc, okid, 0))
+					key := f.Name + "/uses " + vid.Name + " of " + callee.Name() + "#" + itoa(k)
+					if ok2 {
+						c.obN(rule, key, w.Pos(id.Pos()), true, "entailed by "+okid.Name+": "+how, false)
+					} else {
+						c.ob(rule, key, w.Pos(id.Pos()), false, vid.Name+" is used although "+callee.Name()+" is not known to have found it ("+okid.Name+" is not entailed): the zero value would be taken for a result ("+how+")")
+					}
+					return true
+				})
+				return true
+			})
+		}
+	}
+	if n == 0 {
+		c.undecided(rule, "no lookup with a found flag")
+	}
+}
